@@ -5,8 +5,10 @@ uninterpreted `F`, `W`, `C`, so two reads agree in the model iff they agree for 
 
 ops (first token `C13` already stripped):
   names <Class>                      -> getters=a,b;slots=…;flags=…
-  hist <Class> <cfg> <history>       -> one record per read, `|`-separated:
+  hist <Class> <cfg> <history> [raising]  (raising = getters that raise instead of returning)
+                                     -> one record per read, `|`-separated:
         <g>:f=<getters that ran>:w=<slots whose value changed>:c=<cached results rewritten>:i=<input rewritten 0/1>:s=<1 value equals that of a fresh object, 0 not, r recursion limit>
+  hist2 <Class> <cfg> <objs> <history> -> as hist, for two objects (0/1) of the class read interleaved
   verdict <Class> <cfg>              -> ni=<0/1>   (noInterferenceB of the resolved table)
 `cfg` = ids of the flags that hold on the constructed object (`-` = none).
 -/
@@ -24,12 +26,16 @@ def showOpt : Option String → String
   | some s => s
 
 /-- symbolic semantics: every uninterpreted function builds a term -/
-def symSem : Sem String String :=
-  { F := fun g dvs pvs x => s!"F{g}({joinS dvs}|{joinS (pvs.map showOpt)}|{showOpt x})"
+def symSemR (raising : List Nat) : Sem String String :=
+  { raises := fun g _ _ _ => raising.contains g
+    F := fun g dvs pvs x => s!"F{g}({joinS dvs}|{joinS (pvs.map showOpt)}|{showOpt x})"
     W := fun g p dvs pvs x => s!"W{g}_{p}({joinS dvs}|{joinS (pvs.map showOpt)}|{showOpt x})"
     C := fun g k v => s!"C{g}_{k}({v})"
     CI := fun g x => s!"CI{g}({x})"
     D := fun p x => s!"D{p}({x})" }
+
+/-- no getter raises -/
+def symSem : Sem String String := symSemR []
 
 def findSpec? (cls : String) : Option AnalyzerSpec :=
   Generated.allSpecs.find? (·.cls == cls)
@@ -54,34 +60,64 @@ structure StepObs where
   inp : Bool
   same : String
 
-def observe (sp : AnalyzerSpec) (spec : Spec) (s0 : St String String) (g : Nat)
+def observe (sem : Sem String String) (sp : AnalyzerSpec) (spec : Spec) (s0 : St String String) (g : Nat)
     (s : St String String) : St String String × StepObs :=
-  let (s', r) := read spec symSem g s
+  let (s', r) := read spec sem g s
   let ng := sp.getters.length
   let fired := (List.range ng).filter fun k => s'.count k > s.count k
   let pw := (List.range sp.slotNames.length).filter fun p => s'.params p != s.params p
   let cl := (List.range ng).filter fun k => (s.cache k).isSome && s'.cache k != s.cache k
   let same := match r with
     | none => "r"
-    | some v => if (read spec symSem g s0).2 == some v then "1" else "0"
+    | some v => if (read spec sem g s0).2 == some v then "1" else "0"
   (s', { g := g, fired := fired, pw := pw, cl := cl, inp := s'.input != s.input, same := same })
 
 def StepObs.show (o : StepObs) : String :=
   s!"{o.g}:f={showNatList o.fired}:w={showNatList o.pw}:c={showNatList o.cl}:i={if o.inp then 1 else 0}:s={o.same}"
 
-def runObs (sp : AnalyzerSpec) (spec : Spec) (s0 : St String String) :
+def runObs (sem : Sem String String) (sp : AnalyzerSpec) (spec : Spec) (s0 : St String String) :
     List Nat → St String String → List StepObs → St String String × List StepObs
   | [], s, acc => (s, acc.reverse)
-  | g :: h, s, acc => let (s', o) := observe sp spec s0 g s; runObs sp spec s0 h s' (o :: acc)
+  | g :: h, s, acc => let (s', o) := observe sem sp spec s0 g s; runObs sem sp spec s0 h s' (o :: acc)
 
-def hist (sp : AnalyzerSpec) (cfg h : List Nat) : String :=
+def hist (sp : AnalyzerSpec) (cfg h : List Nat) (raising : List Nat := []) : String :=
   let spec := sp.resolve cfg
   let s0 := fresh sp cfg "x"
-  let (_, obs) := runObs sp spec s0 h s0 []
+  let (_, obs) := runObs (symSemR raising) sp spec s0 h s0 []
+  if obs.isEmpty then "-" else "|".intercalate (obs.map StepObs.show)
+
+/-- two live objects of the same class (same configuration, different inputs), reads interleaved:
+    the machine has no state outside the object, so each object runs on its own -/
+def runObs2 (sem : Sem String String) (sp : AnalyzerSpec) (spec : Spec) (f0 f1 : St String String) :
+    List (Nat × Nat) → St String String → St String String → List StepObs → List StepObs
+  | [], _, _, acc => acc.reverse
+  | (o, g) :: h, sa, sb, acc =>
+    if o = 0 then let (s', ob) := observe sem sp spec f0 g sa; runObs2 sem sp spec f0 f1 h s' sb (ob :: acc)
+    else let (s', ob) := observe sem sp spec f1 g sb; runObs2 sem sp spec f0 f1 h sa s' (ob :: acc)
+
+def hist2 (sp : AnalyzerSpec) (cfg objs h : List Nat) (raising : List Nat := []) : String :=
+  let spec := sp.resolve cfg
+  let f0 := fresh sp cfg "x"
+  let f1 := fresh sp cfg "y"
+  let obs := runObs2 (symSemR raising) sp spec f0 f1 (objs.zip h) f0 f1 []
   if obs.isEmpty then "-" else "|".intercalate (obs.map StepObs.show)
 
 def handle (args : List String) : String :=
   match args with
+  | ["hist2", cls, cfg, objs, h, r] =>
+    match findSpec? cls, parseNatList? cfg, parseNatList? objs, parseNatList? h, parseNatList? r with
+    | some sp, some cfg, some objs, some h, some r => hist2 sp cfg objs h r
+    | none, _, _, _, _ => "unknown-class"
+    | _, _, _, _, _ => "bad-op"
+  | ["hist", cls, cfg, h, r] => match findSpec? cls, parseNatList? cfg, parseNatList? h, parseNatList? r with
+    | some sp, some cfg, some h, some r => hist sp cfg h r
+    | none, _, _, _ => "unknown-class"
+    | _, _, _, _ => "bad-op"
+  | ["hist2", cls, cfg, objs, h] =>
+    match findSpec? cls, parseNatList? cfg, parseNatList? objs, parseNatList? h with
+    | some sp, some cfg, some objs, some h => hist2 sp cfg objs h
+    | none, _, _, _ => "unknown-class"
+    | _, _, _, _ => "bad-op"
   | ["names", cls] => match findSpec? cls with
     | some sp => s!"getters={joinS sp.getterNames};slots={joinS sp.slotNames};flags={joinS sp.flagNames}"
     | none => "unknown-class"
